@@ -1359,6 +1359,12 @@ func (m *NetworkMachine) updateClock(
 	activated := am.StatesDiff(activeNow, activeBefore)
 	deactivated := am.StatesDiff(activeBefore, activeNow)
 
+	// take the log collected so far (log() appends under its own lock)
+	m.logEntriesLock.Lock()
+	logEntries := m.logEntries
+	m.logEntries = nil
+	m.logEntriesLock.Unlock()
+
 	tx := &am.Transition{
 		MachApi: m,
 		Id:      utils.RandId(8),
@@ -1372,7 +1378,7 @@ func (m *NetworkMachine) updateClock(
 			Args:   nil,
 			IsAuto: false,
 		},
-		LogEntries:    m.logEntries,
+		LogEntries:    logEntries,
 		TargetIndexes: m.Index(activeNow),
 	}
 	tx.IsCompleted.Store(true)
@@ -1380,7 +1386,6 @@ func (m *NetworkMachine) updateClock(
 	// TODO may not be true for qTicks-only updates
 	tx.IsAccepted.Store(true)
 	m.t.Store(tx)
-	m.logEntries = nil
 
 	// call tracers
 	for _, t := range m.tracers {
